@@ -146,6 +146,14 @@ def _add_anonymous_aliases(structure, type_definition):
                 ir_data_utils.builder(new_alias).abbreviation.CopyFrom(
                     subfield.abbreviation
                 )
+            # The alias is what appears in the text format, so it has to honour
+            # a [text_output] attribute given on the original field.  The copy is
+            # synthetic, so that errors in the attribute are only reported once.
+            for attribute in subfield.attribute:
+                if attribute.name.text == attributes.TEXT_OUTPUT:
+                    alias_attribute = ir_data_utils.copy(attribute)
+                    _mark_as_synthetic(alias_attribute)
+                    new_alias.attribute.extend([alias_attribute])
             _mark_as_synthetic(new_alias.existence_condition)
             _mark_as_synthetic(new_alias.read_transform)
             new_fields.append(new_alias)
